@@ -512,6 +512,142 @@ theorem rows_count {A B pitch : Nat} (hp : 0 < pitch) (h : B ≤ A) :
 
 end Scroll
 
+/-! ## the glyph walk of `write8/16/24` -/
+section Glyph
+open Firefly.VesaFb
+
+set_option maxRecDepth 100000 in
+theorem bit_iff : ∀ j : Fin 8, ∀ rd : Fin 256,
+    ((rd.val &&& (128 >>> j.val)) ≠ 0) = ((rd.val >>> (7 - j.val)) % 2 = 1) := by decide
+
+theorem mask_ne : ∀ j : Fin 8, 128 >>> j.val ≠ 0 := by decide
+
+/-- state of the walk at the head of the pixel loop, before pixel `x` of a glyph row whose first
+font byte is `rowBase`: after 8 pixels the mask has run out and the font offset still points at
+the previous byte; otherwise the mask selects bit `7 - x%8` of byte `x/8`. -/
+def GlyphInv (f : Font) (rowBase x fontOff rd mask : Nat) : Prop :=
+  if x % 8 = 0 ∧ x ≠ 0 then mask = 0 ∧ fontOff + 1 = rowBase + x / 8
+  else mask = 128 >>> (x % 8) ∧ fontOff = rowBase + x / 8 ∧ rd = (f.data.getD (rowBase + x / 8) 0).toNat
+
+/-- bytes of pixel `x` of the row: foreground where the glyph bit is set -/
+def glyphColor (f : Font) (fgC bgC : List UInt8) (rowBase x : Nat) : List UInt8 :=
+  if ((f.data.getD (rowBase + x / 8) 0).toNat >>> (7 - x % 8)) % 2 = 1 then fgC else bgC
+
+theorem glyphRow_eq (f : Font) (fgC bgC : List UInt8) (step rowBase : Nat) (hsz : f.data.size < 4294967296) :
+    ∀ (n : Nat) (fb : Array UInt8) (fbOff fontOff rd mask x : Nat), GlyphInv f rowBase x fontOff rd mask →
+      (n ≠ 0 → rowBase + (x + n - 1) / 8 < f.data.size) →
+      glyphRow f fgC bgC step n fb fbOff fontOff rd mask =
+        match pixRowF (glyphColor f fgC bgC rowBase) step n fb fbOff x with
+        | none => none
+        | some fb' => some (fb', if n = 0 then fontOff else rowBase + (x + n - 1) / 8) := by
+  intro n
+  induction n with
+  | zero => intros; simp [glyphRow, pixRowF]
+  | succ n ih =>
+    intro fb fbOff fontOff rd mask x hinv hbound
+    have hb : rowBase + x / 8 < f.data.size := by have := hbound (by omega); omega
+    have hget : f.data[rowBase + x / 8]? = some f.data[rowBase + x / 8] := Array.getElem?_eq_getElem hb
+    have hgetD : f.data.getD (rowBase + x / 8) 0 = f.data[rowBase + x / 8] := by
+      rw [Array.getD_eq_getD_getElem?, hget]; rfl
+    -- the state after the `if mask == 0` step
+    have hst : (if mask = 0 then (f.data[add32 fontOff 1]?).map (fun d => (add32 fontOff 1, d.toNat, 128))
+        else some (fontOff, rd, mask)) =
+        some (rowBase + x / 8, (f.data[rowBase + x / 8]).toNat, 128 >>> (x % 8)) := by
+      unfold GlyphInv at hinv
+      by_cases hc : x % 8 = 0 ∧ x ≠ 0
+      · rw [if_pos hc] at hinv
+        have ha : add32 fontOff 1 = rowBase + x / 8 := by unfold add32; omega
+        rw [if_pos hinv.1, ha, hget, hc.1]; rfl
+      · rw [if_neg hc] at hinv
+        have hne : mask ≠ 0 := by
+          rw [hinv.1]; exact mask_ne ⟨x % 8, by omega⟩
+        rw [if_neg hne, hinv.1, hinv.2.1, hinv.2.2, hgetD]
+    have hcol : (if (f.data[rowBase + x / 8]).toNat &&& (128 >>> (x % 8)) ≠ 0 then fgC else bgC) =
+        glyphColor f fgC bgC rowBase x := by
+      unfold glyphColor
+      rw [hgetD]
+      have := bit_iff ⟨x % 8, by omega⟩ ⟨(f.data[rowBase + x / 8]).toNat, UInt8.toNat_lt _⟩
+      simp only at this
+      simp only [this]
+    simp only [glyphRow, pixRowF]
+    rw [hst]
+    simp only [hcol]
+    cases hp : putPixel fb fbOff (glyphColor f fgC bgC rowBase x) with
+    | none => rfl
+    | some fb' =>
+      simp only []
+      have hinv' : GlyphInv f rowBase (x + 1) (rowBase + x / 8) (f.data[rowBase + x / 8]).toNat (128 >>> (x % 8) >>> 1) := by
+        unfold GlyphInv
+        by_cases hc : (x + 1) % 8 = 0 ∧ x + 1 ≠ 0
+        · rw [if_pos hc]
+          have h7 : x % 8 = 7 := by omega
+          rw [h7]
+          exact ⟨by decide, by omega⟩
+        · rw [if_neg hc]
+          have h1 : (x + 1) % 8 = x % 8 + 1 := by omega
+          have h2 : (x + 1) / 8 = x / 8 := by omega
+          rw [h1, h2, hgetD]
+          exact ⟨(Nat.shiftRight_add _ _ _).symm, rfl, rfl⟩
+      rw [ih fb' (add32 fbOff step) (rowBase + x / 8) _ _ (x + 1) hinv' (by intro hn; have := hbound (by omega); omega)]
+      cases pixRowF (glyphColor f fgC bgC rowBase) step n fb' (add32 fbOff step) (x + 1) with
+      | none => rfl
+      | some fb'' =>
+        simp only []
+        by_cases hn : n = 0
+        · subst hn; simp
+        · rw [if_neg hn, if_neg (by omega)]
+          have : rowBase + (x + 1 + n - 1) / 8 = rowBase + (x + (n + 1) - 1) / 8 := by omega
+          rw [this]
+
+/-- pixel `(px, py)` of the glyph whose data starts at `base` -/
+def glyphColor2 (f : Font) (fgC bgC : List UInt8) (base px py : Nat) : List UInt8 :=
+  glyphColor f fgC bgC (base + py * f.bpr) px
+
+theorem glyphRows_eq (f : Font) (fgC bgC : List UInt8) (step pitch base : Nat) (hsz : f.data.size < 4294967296)
+    (hgw : 1 ≤ f.gw) (hbpr : (f.gw - 1) / 8 + 1 = f.bpr) :
+    ∀ (n : Nat) (fb : Array UInt8) (fbRowOff py : Nat), base + (py + n) * f.bpr ≤ f.data.size →
+      glyphRows f fgC bgC step pitch n fb fbRowOff (base + py * f.bpr) =
+        rowsF (glyphColor2 f fgC bgC base) step pitch f.gw n fb fbRowOff py := by
+  intro n
+  induction n with
+  | zero => intros; rfl
+  | succ n ih =>
+    intro fb fbRowOff py hb
+    have e1 : (py + (n + 1)) * f.bpr = py * f.bpr + n * f.bpr + f.bpr := by rw [Nat.add_mul, Nat.succ_mul]; omega
+    have e2 : (py + 1 + n) * f.bpr = py * f.bpr + n * f.bpr + f.bpr := by rw [Nat.add_mul, Nat.add_mul]; omega
+    have e3 : (py + 1) * f.bpr = py * f.bpr + f.bpr := by rw [Nat.add_mul]; omega
+    have hlt : base + py * f.bpr < f.data.size := by omega
+    have hget : f.data[base + py * f.bpr]? = some f.data[base + py * f.bpr] := Array.getElem?_eq_getElem hlt
+    have hinv : GlyphInv f (base + py * f.bpr) 0 (base + py * f.bpr) (f.data[base + py * f.bpr]).toNat 128 := by
+      unfold GlyphInv
+      rw [if_neg (by omega)]
+      refine ⟨rfl, rfl, ?_⟩
+      rw [Array.getD_eq_getD_getElem?]
+      simp only [Nat.zero_div, Nat.add_zero, hget]; rfl
+    have hrow := glyphRow_eq f fgC bgC step (base + py * f.bpr) hsz f.gw fb fbRowOff (base + py * f.bpr)
+      (f.data[base + py * f.bpr]).toNat 128 0 hinv (by intro _; omega)
+    simp only [glyphRows, rowsF, hget, hrow]
+    show (match (match pixRowF (glyphColor f fgC bgC (base + py * f.bpr)) step f.gw fb fbRowOff 0 with
+          | none => none
+          | some fb' => some (fb', if f.gw = 0 then base + py * f.bpr else base + py * f.bpr + (0 + f.gw - 1) / 8)) with
+        | none => none
+        | some (fb', fo) => glyphRows f fgC bgC step pitch n fb' (add32 fbRowOff pitch) (add32 fo 1)) = _
+    have hcol : (fun x => glyphColor2 f fgC bgC base x py) = glyphColor f fgC bgC (base + py * f.bpr) := rfl
+    rw [hcol]
+    cases pixRowF (glyphColor f fgC bgC (base + py * f.bpr)) step f.gw fb fbRowOff 0 with
+    | none => rfl
+    | some fb' =>
+      simp only []
+      have hfo : add32 (if f.gw = 0 then base + py * f.bpr else base + py * f.bpr + (0 + f.gw - 1) / 8) 1
+          = base + (py + 1) * f.bpr := by
+        rw [if_neg (by omega)]; unfold add32
+        have : (0 + f.gw - 1) / 8 = (f.gw - 1) / 8 := by rw [Nat.zero_add]
+        rw [this]; omega
+      rw [hfo]
+      exact ih fb' _ (py + 1) (by omega)
+
+end Glyph
+
 /-! ## text console -/
 section Text
 open Firefly.VgaText
